@@ -40,6 +40,16 @@ CHECKS = {
              "Holds for all positions/seeds at once; tests sample a handful of positions.",
         design_ref="DESIGN.md section 4, C08",
         note=TB_COMMON + " 64-bit collisions of independent random keys are ignored; rule H5.component deliberately rejects keys that mix several State components (unproven refinements)."),
+    "C19": dict(
+        category="proof",
+        technique="static analysis: whole-workspace call-graph reachability from Searcher::analyze with an effect table for nondeterminism sources, "
+                  "RNG construction/use provenance, constant folding of the worker-count condition over iteration indices 0..2, static/thread-local inventory",
+        text="Proof that everything reachable from the public search entry is a deterministic function of (position, seed, depth): no OS randomness, clock, "
+             "environment, thread identity, hash-container iteration or address exposure is reachable (one reviewed exception: HashMap::new, unobservable "
+             "because the map is never iterated); every RNG is constructed from the caller's seed or from draws of such a generator; the worker count folds "
+             "to 1 for the first three iterations; events have a single producer; no mutable process-wide state exists; the CLI passes --seed unchanged.",
+        design_ref="DESIGN.md section 4, C19",
+        note=TB_COMMON + " tables/effects.json is complete for the nondet class; rayon with one element, rand_chacha, f32 arithmetic and stable sorts are deterministic."),
 }
 
 NOT_BUILT_REASON = "check not built yet (see DESIGN.md for the plan)"
